@@ -28,7 +28,7 @@ PROPS = {
     "C03": {"level": "exploration", "arms": [A("par-free", 40000, 2500000), A("par-free-wide", 8000, 400000)],
             "probes": ["probe:>=2_workers_compiling_at_once", "probe:worker_parked_and_woken", "probe:multi_wake", "probe:pruned_by_cache_at_pop", "probe:read_threshold_written_by_peer", "fringe_clears", "fault:preemptions"],
             "rule": RULE_SOLVER},
-    "C04": {"level": "exploration", "arms": [A("par-free", 30000, 1500000), A("par-cutoff", 40000, 2000000), A("par-flaky", 20000, 800000), A("par-threads", 20000, 800000), A("par-threads-cutoff", 20000, 800000)],
+    "C04": {"level": "exploration", "arms": [A("par-free", 30000, 1500000), A("par-cutoff", 40000, 2000000), A("par-flaky", 20000, 800000), A("par-threads", 20000, 800000), A("par-threads-cutoff", 20000, 800000), A("ext:miri-solver", 0, 320, reps=6)],
             "probes": ["probe:multi_wake", "probe:abort_with_peer_parked", "probe:abort_with_peer_processing", "fault:thread_count_increase", "fault:cutoff_fired", "probe:worker_parked_and_woken"],
             "rule": RULE_SOLVER + "; violation classes: deadlock (no enabled worker while one is parked), step-bound, worker panic, premature completion"},
     "C05": {"level": "exploration", "arms": [A("par-cutoff", 60000, 3000000), A("par-threads-cutoff", 10000, 400000), A("seq-sweep", 6000, 250000), A("seq-sweep-nodup", 3000, 200000)],
@@ -64,9 +64,11 @@ PROPS = {
     "C15": {"level": "exploration", "arms": [A("seq-longarc", 8000, 400000), A("par-longarc", 4000, 200000), A("seq-longarc-plain", 4000, 200000)],
             "probes": ["branched(explored>=2)", "probe:>=2_workers_compiling_at_once"],
             "rule": RULE_SOLVER + "; depth-free table models with random irrelevance patterns (an irrelevant (layer, state) has the single neutral decision: stay, cost 0); pooled solvers vs plain-diagram solvers vs reference"},
-    "C18": {"level": "exploration", "arms": [A("store-history", 60000, 3000000), A("dom-history", 30000, 1200000)],
-            "probes": ["probe:get_hit", "cache_clear_layers", "cache_clears", "probe:dominated_verdict"],
-            "rule": "sequential specification: generated histories of update/get/clear_layer/clear/must_explore (<= 3 states x 4 depths x values -2..3 x explored) against a BTreeMap reference, and the dominance histories of C10; distinct = distinct history"},
+    "C18": {"level": "exploration", "arms": [A("store-history", 60000, 3000000), A("dom-history", 30000, 1200000), A("ext:miri-cache", 16, 640, reps=20), A("ext:miri-dom", 16, 640, reps=20)],
+            "probes": ["probe:get_hit", "cache_clear_layers", "cache_clears", "probe:dominated_verdict", "probe:overlapping_updates_same_key", "probe:get_overlapping_update", "probe:overlapping_check_and_insert_same_key"],
+            "real": ["ddo::SimpleCache, ddo::SimpleDominanceChecker", "dashmap 5.5 (shard RwLocks) and parking_lot_core, interpreted by Miri", "std::thread (Miri's seeded scheduler decides every pre-emption)"],
+            "stub": ["nothing is stubbed in the concurrent arm; the workload (2..3 threads x 2..4 operations on 1..2 keys) is generated from the workload seed"],
+            "rule": "concurrent half (engine M): one Miri execution = one (workload seed, Miri seed, pre-emption rate) triple running 20 generated workloads of 2..3 real threads x 2..4 operations on 1..2 keys; every operation stamped with invoke/return values of a global SeqCst counter; the recorded history is checked for linearizability against the sequential specification by exhaustive search, plus no-lost-update and monotone-read checks; non-trivial = operations on the same key overlapped in (invoke, return) time. sequential specification: generated histories of update/get/clear_layer/clear/must_explore (<= 3 states x 4 depths x values -2..3 x explored) against a BTreeMap reference, and the dominance histories of C10; distinct = distinct history"},
     "C19": {"level": "fault_enumeration", "arms": [A("seq-sweep", 12000, 500000), A("seq-sweep-nodup", 4000, 200000)],
             "probes": ["probe:ub_strictly_decreased_between_consecutive_k", "probe:lb_strictly_increased_between_consecutive_k", "probe:nodup_coalesced_diff_ub", "sweep_executions"],
             "rule": "for each sampled (instance, configuration) the uninterrupted run gives K polls, then EVERY cutoff index k in 1..K+1 is executed and consecutive k are compared; a case = (instance, configuration, k); non-trivial = k <= K (the cutoff really fires); distinct by hash of (tables, configuration, k)",
